@@ -520,6 +520,8 @@ type Outcome struct {
 	Pts       int64    `json:"pts,omitempty"`
 	Intact    bool     `json:"intact"`
 	Fault     bool     `json:"fault,omitempty"`
+	NilRd     bool     `json:"-"`
+	Fn        string   `json:"-"`
 
 	valid []bool
 	err   error
@@ -553,6 +555,14 @@ func (o *Outcome) Digest() string {
 	dev := ""
 	if o.Dev != nil {
 		dev = fmt.Sprintf("calls=%d asked=%v gave=%v delivered=%d err=%d", o.Dev.Calls, o.Dev.Asked, o.Dev.Gave, o.Dev.Delivered, o.Dev.ErrKind)
+	}
+	if o.NilRd {
+		// How an implementation consumes crypto/rand.Reader (how much, when,
+		// buffered or not) is nobody's business; only whether it failed.
+		dev = fmt.Sprintf("nil-reader err=%d", o.Dev.ErrKind)
+		if o.Fn == "GenerateKey" && o.Panic == "" && o.err == nil {
+			return fmt.Sprintf("GenerateKey(nil): %s intact=%v", o.Ok, o.Intact)
+		}
 	}
 	return fmt.Sprintf("panic=%q budget=%v b=%s b2=%s ok=%s valid=%s err=%q dev{%s} fb=%v intact=%v",
 		o.Panic, o.Budget, o.B, o.B2, o.Ok, o.Valid, o.Err, dev, o.Fallbacks, o.Intact)
@@ -631,6 +641,7 @@ func execOp(p *Prepared) (out *Outcome) {
 		call(p, rd, out)
 	}()
 	out.Pts = zzsimrt.EndOp()
+	out.NilRd, out.Fn = op.NilRd, op.Fn
 	out.Fallbacks = takeFallbacks()
 	if dev != nil {
 		l := dev.log
@@ -669,6 +680,28 @@ func basepointIntact() bool {
 	return true
 }
 
+// genKeyClass classifies the result of GenerateKey(nil) without pinning down
+// how the implementation reaches its entropy: "derived" if exactly 32 bytes
+// were drawn from crypto/rand.Reader during the call and the pair is what
+// NewKeyFromSeed derives from them, otherwise "coherent" / "incoherent".
+func genKeyClass(pub, priv []byte) string {
+	if len(pub) != 32 || len(priv) != 64 || !bytesEq(pub, priv[32:]) {
+		return "incoherent"
+	}
+	if d := getCurDev(); d != nil && d.log.Delivered == 32 {
+		if bytesEq(priv, stded.NewKeyFromSeed(d.log.Bytes[:32])) {
+			return "derived-from-the-32-bytes-read"
+		}
+		return "incoherent-with-bytes-read"
+	}
+	if bytesEq(priv, stded.NewKeyFromSeed(priv[:32])) {
+		return "coherent"
+	}
+	return "incoherent"
+}
+
+func bytesEq(a, b []byte) bool { return string(a) == string(b) }
+
 func boolStr(b bool) string {
 	if b {
 		return "true"
@@ -682,6 +715,9 @@ func call(p *Prepared, rd io.Reader, out *Outcome) {
 	case "GenerateKey":
 		pub, priv, err := ed25519.GenerateKey(rd)
 		out.b, out.b2, out.err = pub, priv, err
+		if op.NilRd && err == nil {
+			out.Ok = genKeyClass(pub, priv)
+		}
 	case "NewKeyFromSeed":
 		out.b = ed25519.NewKeyFromSeed(p.seed)
 	case "Sign":
